@@ -316,7 +316,94 @@ func c04Alloc(r *Run, scope []*ssa.Function) {
 // sizeBoundedByRemaining: walking up from the allocation, every way into it passes an edge that entails
 // size <= X.Len() for a Len() call on the decoder's reader, or is the !ok edge of the assertion that the reader has Len()
 // (infeasible because every decoder's reader has Len — checked separately).
-func sizeBoundedByRemaining(fa *FA, ms *ssa.MakeSlice, size *Lin) (bool, string) {
+func sizeBoundedByRemaining(fa *FA, ms ssa.Instruction, size *Lin) (bool, string) {
+	if ok, why := sizeBoundedLocally(fa, ms, size); ok {
+		return ok, why
+	}
+	// a dominating, successful call of a guard helper: a module function whose every nil-error return bounds one
+	// of its integer parameters by the remaining input (decided on the helper's own body by the same rule)
+	found := false
+	eachInstr(fa.Fn, func(in ssa.Instruction) {
+		c, ok := in.(*ssa.Call)
+		if !ok || found {
+			return
+		}
+		g := staticCallee(&c.Call)
+		if g == nil || g == fa.Fn || !fa.P.InModule(g) || g.Blocks == nil {
+			return
+		}
+		j, ok := fa.P.remainingGuard(g)
+		if !ok || j >= len(c.Call.Args) {
+			return
+		}
+		if !instrDominates(c, ms) || !callSucceededAt(c, ms) {
+			return
+		}
+		if fa.Lin(c.Call.Args[j]).Equal(size) {
+			found = true
+		}
+	})
+	if found {
+		return true, "a dominating successful call of a guard helper entails size <= remaining input"
+	}
+	return false, "no bound by the remaining input found"
+}
+
+var remainingGuardCache = map[*ssa.Function]int{}
+
+// remainingGuard: g returns a nil error only when its integer parameter j is at most the remaining input of the
+// decoder's reader (or the reader cannot report a length).
+func (p *Prog) remainingGuard(g *ssa.Function) (int, bool) {
+	if j, ok := remainingGuardCache[g]; ok {
+		return j, j >= 0
+	}
+	remainingGuardCache[g] = -1
+	res := g.Signature.Results()
+	if res.Len() != 1 || !isErrorType(res.At(0).Type()) {
+		return -1, false
+	}
+	fa := p.FA(g)
+	for j, prm := range g.Params {
+		if _, _, ok := intBits(prm.Type()); !ok {
+			continue
+		}
+		size := fa.Lin(prm)
+		all, n := true, 0
+		for _, ret := range returnsOf(g) {
+			if len(ret.Results) != 1 {
+				all = false
+				break
+			}
+			if !isNilConst(ret.Results[0]) {
+				if _, isConst := ret.Results[0].(*ssa.Const); isConst || knownNonNilAt(ret.Results[0], ret) {
+					continue
+				}
+				if _, isMI := ret.Results[0].(*ssa.MakeInterface); isMI {
+					continue
+				}
+				if u, isLoad := ret.Results[0].(*ssa.UnOp); isLoad {
+					if _, isG := u.X.(*ssa.Global); isG {
+						continue
+					}
+				}
+				all = false
+				break
+			}
+			n++
+			if ok, _ := sizeBoundedLocally(fa, ret, size); !ok {
+				all = false
+				break
+			}
+		}
+		if all && n > 0 {
+			remainingGuardCache[g] = j
+			return j, true
+		}
+	}
+	return -1, false
+}
+
+func sizeBoundedLocally(fa *FA, ms ssa.Instruction, size *Lin) (bool, string) {
 	isLenCall := func(a *Sym) bool {
 		return a.Op == "call" && strings.HasSuffix(a.Aux, ".Len") && strings.HasPrefix(a.Aux, "invoke")
 	}
